@@ -129,6 +129,9 @@ class ArgParser:
         """
         if args is None:
             args = sys.argv[1:]
+        else:
+            # any sequence is accepted; the caller's object is not modified
+            args = list(args)
 
         if not args and self._help_if_no_args:
             print("appending help option")
